@@ -41,6 +41,14 @@ def apply_mut(ws, rel, mut, base_content):
     elif mut == "retyped":
         os.unlink(p)
         write_file(p, base_content)
+    elif mut == "swapped":
+        # replaced (new inode) by different, uncached bytes of the same size with the mtime preserved
+        st = os.stat(p)
+        data = bytes((b + 1) % 256 for b in base_content) or b""
+        tmp = p + ".swap"
+        write_file(tmp, data, stamp_it=False)
+        os.utime(tmp, ns=(st.st_atime_ns, st.st_mtime_ns))
+        os.replace(tmp, p)
 
 
 def one_exec(cfg):
@@ -161,6 +169,10 @@ def run_case(case):
     base = case["base"]
     npaths = case["npaths"]
     vecs = [v + ("same",) * (3 - npaths) for v in itertools.product(PMUTS, repeat=npaths)]
+    if base["state"]:
+        for i in range(3):
+            vecs.append(tuple("swapped" if j == i else "same" for j in range(3)))
+            vecs.append(tuple("swapped" if j == i else "deleted" if j == (i + 1) % 3 else "same" for j in range(3)))
     combos = []
     for target in TARGETS:
         tv = vecs if target != "from-file" else [("same",) * 3, ("cached",) + ("same",) * 2, ("uncached",) + ("same",) * 2]
@@ -191,6 +203,8 @@ def run_case(case):
                         res["nontrivial"].add(d)
                     if "uncached" in vec or untracked:
                         res["vac"]["uncached_vectors"] += 1
+                    if "swapped" in vec:
+                        res["vac"]["swapped_vectors"] = res["vac"].get("swapped_vectors", 0) + 1
                     if loss != "none":
                         res["vac"]["cache_loss_runs"] = res["vac"].get("cache_loss_runs", 0) + 1
                     if info["outcome"] == "PromptError":
@@ -347,13 +361,151 @@ def links_case(case):
     return res
 
 
+# ---- user edits landing inside a checkout call ------------------------------------------
+
+_FL = {"on": False, "ws": None, "n": 0, "at": None, "edit": None, "hooked": False}
+
+
+def _fl_event(path):
+    if not _FL["on"]:
+        return
+    try:
+        if isinstance(path, bytes):
+            path = path.decode()
+        if not isinstance(path, str) or not path.startswith(_FL["ws"]):
+            return
+    except Exception:  # noqa: BLE001
+        return
+    n = _FL["n"]
+    _FL["n"] = n + 1
+    if _FL["at"] is not None and n == _FL["at"]:
+        _FL["on"] = False
+        try:
+            _FL["edit"]()
+        finally:
+            _FL["on"] = True
+
+
+def _fl_install():
+    import sys
+
+    if _FL["hooked"]:
+        return
+    _FL["hooked"] = True
+    o_stat, o_lstat = os.stat, os.lstat
+
+    def stat_(path, *a, **kw):
+        _fl_event(path)
+        return o_stat(path, *a, **kw)
+
+    def lstat_(path, *a, **kw):
+        _fl_event(path)
+        return o_lstat(path, *a, **kw)
+
+    os.stat, os.lstat = stat_, lstat_
+
+    def hook(event, args):
+        if _FL["on"] and event in ("open", "os.scandir", "os.listdir", "os.rename", "os.remove", "os.chmod",
+                                   "os.utime", "shutil.copyfile", "os.link", "os.symlink"):
+            _fl_event(args[0] if args else None)
+
+    sys.addaudithook(hook)
+
+
+# Only files that the checkout leaves alone are edited: a file the checkout itself rewrites or removes has
+# an inherent check-then-act window (and the property quantifies over prior workspace states, not over edits
+# racing the call), so nothing is claimed for those.
+INFLIGHT = [("A", "s/c"), ("A", "a"), ("A", "e"), ("B", "s/c")]
+
+
+def run_inflight(cfg, at):
+    """checkout(prior A -> target) with a State; the user replaces one file with uncached bytes just before
+    the library's `at`-th file-system access below the workspace; then unused links are cleaned up."""
+    from dvc_data.hashfile.checkout import checkout
+    from dvc_data.hashfile.state import State
+
+    _fl_install()
+    viol = []
+    with World() as w:
+        state = State(root_dir=w.root, tmp_dir=w.p("tmp"))
+        try:
+            odb = make_odb(cfg["kind"], w.p("cache"), type=[cfg["link"]], state=state)
+            fill_cache(odb, extra=["z"])
+            ws = w.p("ws")
+            checkout(ws, LFS, load_obj(odb, "A"), odb, force=True, state=state if cfg["recorded"] else None)
+            f = os.path.join(ws, *cfg["file"].split("/"))
+            user = UNCACHED + b" in flight"
+            fired = []
+
+            def edit():
+                if os.path.lexists(f):
+                    os.unlink(f)
+                write_file(f, user)
+                fired.append(1)
+
+            _FL.update(ws=ws, n=0, at=at, edit=edit, on=True)
+            outcome = "ok"
+            try:
+                checkout(ws, LFS, load_obj(odb, cfg["target"]), odb, force=False, state=state)
+            except Exception as e:  # noqa: BLE001
+                outcome = type(e).__name__
+            finally:
+                _FL["on"] = False
+            events = _FL["n"]
+            if fired:
+                now = walk_files(ws)
+                if user not in [v for v in now.values()]:
+                    viol.append(("in-flight-user-edit-destroyed-by-checkout",
+                                 f"{cfg} at access {at}: outcome={outcome}"))
+                else:
+                    unused = state.get_unused_links([], LFS)
+                    state.remove_links(unused, LFS)
+                    now = walk_files(ws) if os.path.lexists(ws) else {}
+                    if user not in [v for v in now.values()]:
+                        viol.append(("in-flight-user-edit-destroyed-by-clean-up",
+                                     f"{cfg} at access {at}: outcome={outcome} unused={unused}"))
+        finally:
+            state.close()
+    return viol, events, bool(fired)
+
+
+def inflight_case(case):
+    res = {"n": 0, "trans": 0, "states": [], "outcomes": set(), "nontrivial": set(), "viol": [],
+           "vac": {"inflight_edits": 0}}
+    cfg = case["cfg"]
+    _v, events, _f = run_inflight(cfg, None)
+    sigs = set()
+    for at in range(events):
+        viol, _e, fired = run_inflight(cfg, at)
+        res["n"] += 1
+        res["trans"] += 3
+        d = digest_obj((cfg, at))
+        res["states"].append(d)
+        if fired:
+            res["nontrivial"].add(d)
+            res["vac"]["inflight_edits"] += 1
+        res["outcomes"].add(repr(sorted(v[0] for v in viol)))
+        for sig, detail in viol:
+            if sig not in sigs:
+                sigs.add(sig)
+                res["viol"].append((sig, detail, {"part": "inflight", "cfg": cfg, "at": at}))
+    res["outcomes"] = sorted(res["outcomes"])
+    res["nontrivial"] = sorted(res["nontrivial"])
+    res["sample"] = dict(cfg, accesses=events)
+    return res
+
+
 def run_any(case):
+    if case.get("part") == "inflight":
+        return inflight_case(case)
     return links_case(case) if case.get("part") == "links" else run_case(case)
 
 
 def replay(case):
     if case.get("part") == "links":
         return run_links([tuple(o) for o in case["hist"]])[0]
+    if case.get("part") == "inflight":
+        return run_inflight(case["cfg"], case["at"])[0]
     cfg = {k: v for k, v in case.items() if k != "part"}
     return one_exec(cfg)[0]
 
@@ -368,16 +520,22 @@ def run(ctx):
         "type {copy, hardlink, symlink} x relink x prompt {absent, declining} x state on/off, force off; link "
         f"clean-up: every history of length {depth} over {len(LOPS)} operations (record, modify, touch, replace, "
         "remove, edit/add/rename inside a tracked directory, clean-up with each used list) containing a clean-up; "
+        "in-flight: checkout A->A / A->B with a State (prior link record present / absent), an untouched file "
+        "replaced by uncached bytes before each of the call's accesses (stat, lstat, open, scandir, rename, "
+        "remove, chmod, utime, link) below the workspace, then clean-up with an empty used list; "
         "non-trivial = some user mutation / some recorded link"
     )
     ctx.bound = {"mutations": PMUTS, "targets": TARGETS, "paths_varied": npaths, "link_history_depth": depth}
     ctx.assumptions = [
-        "user mutations happen between, not during, library calls",
+        "user mutations happen between, not during, library calls - except in the in-flight part, which "
+        "replaces a file that the checkout leaves alone (same entry in the old and the new tree) just before "
+        "every file-system access the call makes below the workspace; files the checkout itself rewrites or "
+        "removes have an inherent check-then-act window and are not claimed",
         "'recoverable' = the cache holds an object named by the md5 of the bytes with exactly those bytes",
         "clean-up: only safety is demanded (what is removed was recorded, unused and unmodified)",
     ]
     ctx.require("refusals", "uncached_vectors", "completed", "kind_change_runs", "cache_loss_runs", "cleanups_that_removed",
-                "link_histories")
+                "link_histories", "swapped_vectors", "inflight_edits")
     cs = []
     for kind in ("local", "base"):
         for link in ("copy", "hardlink", "symlink"):
@@ -388,4 +546,10 @@ def run(ctx):
     for a in LOPS:
         for b in LOPS:
             cs.append({"part": "links", "prefix": [list(a), list(b)], "depth": depth})
+    for kind in ("local", "base"):
+        for link in ("copy", "hardlink"):
+            for target, f in INFLIGHT:
+                for recorded in (False, True):
+                    cs.append({"part": "inflight", "cfg": {"kind": kind, "link": link, "target": target, "file": f,
+                                                           "recorded": recorded}})
     ctx.run_cases("run_any", cs, chunksize=1, det=2)
